@@ -5,7 +5,9 @@ mod report;
 mod e1_codec;
 mod e1_quorum;
 mod e1_unit;
+mod e2_batchmaker;
 mod e2_quorumwaiter;
+mod e2_sender;
 mod e2_store;
 mod e3_cons;
 mod monitor;
@@ -64,6 +66,8 @@ fn main() {
         "aggregator" => e1_unit::run_aggregator(&o),
         "codec" => e1_codec::run(&o),
         "store" => e2_store::run(&o),
+        "batchmaker" => e2_batchmaker::run(&o),
+        "sender" => e2_sender::run(&o),
         "quorumwaiter" => e2_quorumwaiter::run(&o),
         "cons" => e3_cons::run(&o),
         x => {
